@@ -194,7 +194,74 @@ def extract_backoff(repo, parents):
     return L
 
 
-SECTIONS = []
+# ---------------------------------------------------------------------------------------------
+# C19 / C10: ports, origin, URL parsing entry point
+# ---------------------------------------------------------------------------------------------
+
+def _bytes_int_dict(node, what):
+    if not isinstance(node, ast.Dict):
+        raise ExtractError(f"{what}: not a dict literal")
+    rows = []
+    for k, v in zip(node.keys, node.values):
+        kk, vv = _const(k), _const(v)
+        if not isinstance(kk, bytes) or not isinstance(vv, int) or vv < 0:
+            raise ExtractError(f"{what}: entry is not bytes -> natural number")
+        rows.append((kk, vv))
+    return rows
+
+
+def _lean_ports(rows):
+    return lean_list(f"({lean_bytes(k)}, {v})" for k, v in rows)
+
+
+def extract_models(repo, parents):
+    tree = _parse(repo, "httpcore/_models.py")
+    dp = None
+    for node in tree.body:
+        if isinstance(node, ast.Assign) and getattr(node.targets[0], "id", None) == "DEFAULT_PORTS":
+            dp = _bytes_int_dict(node.value, "DEFAULT_PORTS")
+    if dp is None:
+        raise ExtractError("DEFAULT_PORTS not found")
+    init = _find_func(tree, "__init__", cls="URL")
+    calls = [n for n in ast.walk(init) if isinstance(n, ast.Call) and ast.unparse(n.func).startswith("urllib.parse.")]
+    if len(calls) != 1:
+        raise ExtractError("URL.__init__: expected exactly one urllib.parse call")
+    fn = ast.unparse(calls[0].func).split(".")[-1]
+    if fn not in ("urlparse", "urlsplit"):
+        raise ExtractError(f"URL.__init__: unexpected parser urllib.parse.{fn}")
+    if len(calls[0].args) != 1 or calls[0].keywords:
+        raise ExtractError("URL.__init__: parser called with extra arguments")
+    org = _find_func(tree, "origin", cls="URL")
+    dicts = [n for n in ast.walk(org) if isinstance(n, ast.Subscript) and isinstance(n.value, ast.Dict)]
+    if len(dicts) != 1 or ast.unparse(dicts[0].slice) != "self.scheme":
+        raise ExtractError("URL.origin: `{...}[self.scheme]` not found")
+    od = _bytes_int_dict(dicts[0].value, "URL.origin default ports")
+    ocalls = [n for n in ast.walk(org) if isinstance(n, ast.Call) and ast.unparse(n.func) == "Origin"]
+    if len(ocalls) != 1:
+        raise ExtractError("URL.origin: Origin(...) call not found")
+    kws = {k.arg: k.value for k in ocalls[0].keywords}
+    if ast.unparse(kws.get("scheme")) != "self.scheme" or ast.unparse(kws.get("host")) != "self.host":
+        raise ExtractError("URL.origin: scheme/host arguments changed")
+    pexpr = ast.unparse(kws.get("port"))
+    if pexpr == "self.port or default_port":
+        uses_or = True
+    elif pexpr in ("default_port if self.port is None else self.port", "self.port if self.port is not None else default_port"):
+        uses_or = False
+    else:
+        raise ExtractError(f"URL.origin: port expression not recognised: {pexpr}")
+    L = []
+    L.append("/-- `_models.DEFAULT_PORTS` (used for the synthesised Host header) -/")
+    L.append("def hostDefaultPorts : List (Bytes × Nat) := " + _lean_ports(dp))
+    L.append("/-- the dict literal in `URL.origin` -/")
+    L.append("def originDefaultPorts : List (Bytes × Nat) := " + _lean_ports(od))
+    L.append(f"/-- `URL.__init__` calls urllib.parse.{fn} -/")
+    L.append("def urlUsesParamSplit : Bool := " + ("true" if fn == "urlparse" else "false"))
+    L.append(f"/-- `URL.origin` computes the port as `{pexpr}` -/")
+    L.append("def originPortUsesOr : Bool := " + ("true" if uses_or else "false"))
+    return L
+
+
+SECTIONS = [extract_models]
 
 
 def generate(repo):
